@@ -279,6 +279,9 @@ func (e *racEnv) eval(x Expr) gval {
 		switch base.k {
 		case gSlice:
 			if _, ok := scalarSort(base.elem); ok {
+				if b, isB := base.elem.Underlying().(*types.Basic); isB && b.Kind() == types.Uint8 {
+					return wrapScalar("racIdxB("+base.s+", "+idx+")", base.elem)
+				}
 				return wrapScalar("racIdx("+base.s+", "+idx+")", base.elem)
 			}
 			return gval{s: "(&" + base.s + "[" + idx + "])", k: gRef, elem: base.elem}
